@@ -3,6 +3,8 @@
 package vsync
 
 import (
+	"fmt"
+	"sort"
 	"sync"
 
 	"github.com/openconfig/gnmi/zzverif/vrt"
@@ -15,7 +17,6 @@ type (
 	WaitGroup = vrt.WaitGroup
 	Cond      = vrt.Cond
 	Locker    = sync.Locker
-	Map       = sync.Map
 	Pool      = sync.Pool
 )
 
@@ -37,4 +38,45 @@ func OnceValues[T1, T2 any](f func() (T1, T2)) func() (T1, T2) {
 	var v1 T1
 	var v2 T2
 	return func() (T1, T2) { o.Do(func() { v1, v2 = f() }); return v1, v2 }
+}
+
+// Map is sync.Map with a scheduling point in front of every operation (each
+// operation is atomic, sequences of them are not).
+type Map struct{ m sync.Map }
+
+func (m *Map) Load(key any) (any, bool)        { vrt.Yield(); return m.m.Load(key) }
+func (m *Map) Store(key, value any)            { vrt.Yield(); m.m.Store(key, value) }
+func (m *Map) Delete(key any)                  { vrt.Yield(); m.m.Delete(key) }
+func (m *Map) Swap(key, value any) (any, bool) { vrt.Yield(); return m.m.Swap(key, value) }
+func (m *Map) LoadOrStore(key, value any) (any, bool) {
+	vrt.Yield()
+	return m.m.LoadOrStore(key, value)
+}
+func (m *Map) LoadAndDelete(key any) (any, bool) { vrt.Yield(); return m.m.LoadAndDelete(key) }
+func (m *Map) CompareAndSwap(key, old, new any) bool {
+	vrt.Yield()
+	return m.m.CompareAndSwap(key, old, new)
+}
+func (m *Map) CompareAndDelete(key, old any) bool {
+	vrt.Yield()
+	return m.m.CompareAndDelete(key, old)
+}
+
+// Range visits the entries in a deterministic order (sorted by the printed
+// key) with a scheduling point before each callback.
+func (m *Map) Range(f func(key, value any) bool) {
+	vrt.Yield()
+	type kv struct {
+		k, v any
+		s    string
+	}
+	var all []kv
+	m.m.Range(func(k, v any) bool { all = append(all, kv{k, v, fmt.Sprint(k)}); return true })
+	sort.SliceStable(all, func(i, j int) bool { return all[i].s < all[j].s })
+	for _, e := range all {
+		vrt.Yield()
+		if !f(e.k, e.v) {
+			return
+		}
+	}
 }
